@@ -23,7 +23,8 @@ operations, so the model carries no symbols: only `deferred_D_ops` and the final
 `none` stands for `execute` returning `(None, None)` — or for one of the panics the model checks
 (`unwrap` of an empty selection, `unreachable!`, `assert_eq!(found, 2)`, division by zero).
 
-Entry points: `Rq.piSolveDense`, `Rq.piSolveSparse`.
+Entry points: `Rq.piSolveDense`, `Rq.piSolveSparse` (`fused_inverse_mul_symbols`),
+`Rq.piSolveDenseNoHdpc`, `Rq.piSolveSparseNoHdpc` (`fused_inverse_mul_symbols_no_hdpc`).
 -/
 namespace Rq
 namespace Pi
@@ -826,6 +827,19 @@ def new (matrix : M) (hdpcRows : DenseOctetMatrix) (symbolsLen : Nat) (sp : SysP
     temp := temp.swapRows (sp.s + i) (numRows - sp.h + i)
   return { temp with AHdpcRows := some hdpcRows }
 
+/-- `IntermediateSymbolDecoder::new_no_hdpc`: a solver without HDPC rows (decoding with enough
+overhead to solve the system in GF(2) only). The constraint matrix must NOT contain HDPC rows
+(G_ENC starts at row S); no row swapping, `A_hdpc_rows` stays `None`. -/
+def newNoHdpc (matrix : M) (symbolsLen : Nat) (sp : SysParams) : IntermediateSymbolDecoder M :=
+  { A := enableColumnAccessAcceleration matrix
+    AHdpcRows := none
+    c := Array.range (width matrix)
+    d := Array.range symbolsLen
+    i := 0
+    u := sp.p
+    L := sp.l
+    deferredDOps := #[] }
+
 /-- `record_mul_row` -/
 def recordMulRow (dec : IntermediateSymbolDecoder M) (i beta : Nat) : IntermediateSymbolDecoder M :=
   { dec with deferredDOps := dec.deferredDOps.push (.mul (dec.d.getD i 0) beta) }
@@ -1137,6 +1151,21 @@ def sparseOfRows (sp : SysParams) (binRows : Array (List Nat)) : Sparse := Id.ru
       m := (m.set row c true).getD m
   return m
 
+/-- the dense matrix `generate_constraint_matrix_no_hdpc::<DenseBinaryMatrix>` builds: S LDPC rows
+followed by one G_ENC row per received symbol -/
+def denseOfRowsNoHdpc (sp : SysParams) (binRows : Array (List Nat)) : DenseBinaryMatrix :=
+  let zero := Array.replicate sp.l false
+  { height := binRows.size, width := sp.l
+    elements := binRows.map fun cols => cols.foldl (fun r c => r.setIfInBounds c true) zero }
+
+/-- the sparse matrix `generate_constraint_matrix_no_hdpc::<SparseBinaryMatrix>` builds -/
+def sparseOfRowsNoHdpc (sp : SysParams) (binRows : Array (List Nat)) : Sparse := Id.run do
+  let mut m := Sparse.new binRows.size sp.l sp.p
+  for r in [0:binRows.size] do
+    for c in (binRows.getD r []).reverse do
+      m := (m.set r c true).getD m
+  return m
+
 end Pi
 
 /-- the operation vector `IntermediateSymbolDecoder::new(A, hdpc, D, K).execute()` records for the
@@ -1158,5 +1187,24 @@ def piSolveSparse (sp : SysParams) (isis : List Nat) : Option (List SymOp) :=
     let A := Pi.sparseOfRows sp binRows
     let hdpcRows : Pi.DenseOctetMatrix := { height := sp.h, width := sp.l, elements := hdpc }
     (Pi.IntermediateSymbolDecoder.new A hdpcRows A.h sp).execute
+
+/-- `fused_inverse_mul_symbols_no_hdpc`: the operation vector
+`IntermediateSymbolDecoder::new_no_hdpc(A, D, K).execute()` records for the binary-only system
+(`generate_constraint_matrix_no_hdpc(K, isis)`: LDPC rows and G_ENC rows, no HDPC rows) on the
+dense back-end; `none` when the solver reports failure -/
+def piSolveDenseNoHdpc (sp : SysParams) (isis : List Nat) : Option (List SymOp) :=
+  match constraintMatrixNoHdpc sp isis with
+  | none => none
+  | some binRows =>
+    let A := Pi.denseOfRowsNoHdpc sp binRows
+    (Pi.IntermediateSymbolDecoder.newNoHdpc A A.height sp).execute
+
+/-- the same on the sparse back-end -/
+def piSolveSparseNoHdpc (sp : SysParams) (isis : List Nat) : Option (List SymOp) :=
+  match constraintMatrixNoHdpc sp isis with
+  | none => none
+  | some binRows =>
+    let A := Pi.sparseOfRowsNoHdpc sp binRows
+    (Pi.IntermediateSymbolDecoder.newNoHdpc A A.h sp).execute
 
 end Rq
